@@ -141,11 +141,74 @@ def polyval_spec(enc, coeffs, t, k):
     return acc
 
 
+def cover_paths(fn, task, rounds=6):
+    """Runs a task; where a single-path scenario finds that other paths are feasible on its domain (a data-dependent branch:
+    a cache keyed on input equality, an early-out, ...), the task is re-run with shadow inputs taken from solver models of the
+    not yet explored region until the explored path conditions provably cover the domain (or `rounds` re-runs are used up: then
+    the coverage obligation is reported as unknown).  The obligations are checked on every explored path; only a failing
+    obligation is a violation - an additional feasible path as such is not."""
+    import z3
+    scs = list(fn(task))
+    pend = {}
+    for sc in scs:
+        recs = [r for r in sc.results if r.get('pathcover') and r['status'] == 'sat']
+        if recs:
+            pend[sc.base_name] = {'sc': sc, 'rec': recs[0], 'explored': [z3.And(sc.path_formulas())], 'model': recs[0].get('model'), 'status': 'unknown',
+                                  'detail': 'not covered after %d re-runs on alternative paths' % rounds}
+    for k in range(rounds):
+        todo = [p for p in pend.values() if p['status'] == 'unknown' and p['model'] is not None]
+        if not todo:
+            break
+        pt = todo[0]['sc'].point_from_model(todo[0]['model'])
+        D.SHADOW_OVERRIDE.clear()
+        D.SHADOW_OVERRIDE.update({kk: float(v) for kk, v in pt.items()})
+        O.NAME_SUFFIX[0] = ' (alternative path %d)' % (k + 1)
+        try:
+            new = list(fn(task))
+        except D.HarnessCrash:
+            raise
+        except Exception as e:
+            todo[0]['detail'] = 'alternative path could not be rebuilt: %r' % (e,)
+            todo[0]['model'] = None
+            continue
+        finally:
+            D.SHADOW_OVERRIDE.clear()
+            O.NAME_SUFFIX[0] = ''
+        for s2 in new:
+            p = pend.get(getattr(s2, 'base_name', None))
+            if p is None or p['status'] != 'unknown':
+                continue
+            scs.append(s2)
+            p['explored'].append(z3.And(s2.path_formulas()))
+        for p in pend.values():
+            if p['status'] != 'unknown' or p['model'] is None:
+                continue
+            r = R.solve('cover', p['sc'].base(False) + [z3.Not(f) for f in p['explored']], p['sc'].timeout)
+            p['sc'].queries += 1
+            if r.status == 'unsat':
+                p['status'], p['detail'] = 'unsat', '%d paths cover the domain' % len(p['explored'])
+            elif r.status == 'sat':
+                p['model'] = r.model
+            else:
+                p['model'], p['detail'] = None, 'coverage query: ' + str(r.detail)
+    for p in pend.values():
+        rec = p['rec']
+        rec['status'] = p['status']
+        rec['name'] = rec['name'] + ' [more than one path is feasible: coverage by the explored paths]'
+        rec.pop('confirmed', None)
+        if p['status'] == 'unsat':
+            rec['note'] = p['detail']
+            rec['h'] = len(p['explored'])
+        else:
+            rec['detail'] = p['detail']
+    return scs
+
+
 def run_scenarios(fn):
     """decorator: task function returns list of Scenario -> list of finished dicts"""
     def wrapped(task):
         try:
-            return [sc.finish() for sc in fn(task)]
+            return [sc.finish() for sc in cover_paths(fn, task)]
         except D.HarnessCrash as e:
             if e.rc == 3:       # script error of the VM itself: a framework problem, not a finding
                 raise
